@@ -852,7 +852,7 @@ func Spec() *run.Spec {
 			"active_cells_on_block_face": 1000, "active_cells_on_block_edge": 50, "active_cells_on_block_corner": 5,
 			"cases_with_negative_block_coordinates": 20, "long_capsules_over_3_or_more_blocks": 1, "entry_points": 4, "field_builders": 3,
 			"adders": 3, "adder_x_builder_x_march": 20, "parallel_adder_cases_multiblock_combinefields_2plus_shapes": 5, "parallel_adder_cases_multiblock_sdf_union_2plus_shapes": 5,
-			"unions_whose_source_slice_was_reused_before_sampling": 15, "caller_slice_reuse": 8, "directed_tie_cases": 40, "cases_with_exact_ties_judged": 20, "exact_tie_lattice_points_judged": 2000, "parallel_fill_cases": 16, "directed_boundary_cases": 60, "boundary_placements": 60, "histories": 12, "history_fields_combined_from_a_reused_slice": 6, "history_marches_after_a_later_add_allocated_new_blocks": 12, "history_marches_compared_with_a_fresh_canvas": 12, "directed_seam_cases": 10, "cases_with_seam_weld_trigger": 10, "fieldmarch_cube_configurations": 250,
+			"unions_whose_source_slice_was_reused_before_sampling": 15, "caller_slice_reuse": 8, "sparse_block_scenes": 40, "sparse_block_set_shapes": 16, "sparse_scenes_with_a_missing_diagonal_neighbour": 10, "directed_tie_cases": 40, "cases_with_exact_ties_judged": 20, "exact_tie_lattice_points_judged": 2000, "parallel_fill_cases": 16, "directed_boundary_cases": 60, "boundary_placements": 60, "histories": 12, "history_fields_combined_from_a_reused_slice": 6, "history_marches_after_a_later_add_allocated_new_blocks": 12, "history_marches_compared_with_a_fresh_canvas": 12, "directed_seam_cases": 10, "cases_with_seam_weld_trigger": 10, "fieldmarch_cube_configurations": 250,
 		},
 		Phases: []run.Phase{
 			{Name: "analytic", Cases: func(t string) int {
@@ -879,6 +879,12 @@ func Spec() *run.Spec {
 				}
 				return 64
 			}, Run: tieCase, Batch: 3, CPUBudgetS: 120},
+			{Name: "sparse", Cases: func(t string) int {
+				if t == "thorough" {
+					return 600
+				}
+				return 60
+			}, Run: sparseCase, Batch: 2, CPUBudgetS: 240},
 			{Name: "histories", Cases: func(t string) int {
 				if t == "thorough" {
 					return 300
